@@ -301,8 +301,16 @@ def one_run(acc, seed, tag):
         W.server.groups[gj] = {"participants": groups[gj], "subject": "G%d" % gi, "creator": groups[gj][0]}
     latecomer = r.choice(phones) if (nacc >= 2 and not groups and r.random() < 0.1) else None
     script, msgs = gen_script(r, phones, groups, latecomer)
+    # (the identity auto-trust option is on for a third of the accounts: nobody changes identity in these runs, so it must
+    # not make any difference)
+    from yowsup.layers.axolotl.props import PROP_IDENTITY_AUTOTRUST
+    orr = gen.rng(seed, ID, tag + "/options")
     for p in phones:
-        W.add_client(p)
+        if orr.random() < 0.34:
+            W.add_client(p, props={PROP_IDENTITY_AUTOTRUST: True})
+            acc.count("accounts_with_autotrust")
+        else:
+            W.add_client(p)
     seen_targets = set()
     for a in script:
         if a["op"] == "send":
